@@ -804,3 +804,57 @@ def run_sequence(job, fsroot, repo):
                         "info": {"raised": [x["raised"] for x in infos], "reports": [],
                                  "others_changed": [x["others_changed"] for x in infos]}})
     return {"kind": "seq", "gid": job["gid"], "results": results}
+
+
+# ---------------------------------------------------------------------------
+# output directory INSIDE the input directory (model: FilesNest.tla)
+# ---------------------------------------------------------------------------
+NEST_TREE = ["a.cfg", "b one.cfg", "sub/c.cfg", "sub/deep/d.cfg", "zeta/e.cfg"]
+NEST_JOBS = {
+    # output directory relative to in/, state before the run: "absent" | "empty" | "old" (holds a file of an earlier run)
+    "direct-preexisting-empty": ("anonymized", "empty"),
+    "direct-not-existing": ("anonymized", "absent"),
+    "direct-holding-old-result": ("anonymized", "old"),
+    "below-subdir-not-existing": ("sub/anon", "absent"),
+    "below-subdir-preexisting-empty": ("sub/anon", "empty"),
+    "below-deeper-subdir": ("sub/deep/out", "empty"),
+    "sorted-first-preexisting": ("0-out", "empty"),
+    "with-undecodable-file": ("anonymized", "empty"),
+    "outside-sibling-control": ("../out", "empty"),
+}
+
+
+def run_nested(job, fsroot, repo):
+    """The input files are the files below in/ when the run starts (a pre-existing output directory
+    inside the input tree included); each yields one output below the output directory, nothing else."""
+    outrel, state = NEST_JOBS[job["shape"]]
+    root = os.path.join(fsroot, "w%d" % os.getpid())
+    results = []
+    for entry in job["entries"]:
+        if os.path.exists(root):
+            shutil.rmtree(root)
+        os.makedirs(os.path.join(root, "in"))
+        files = list(NEST_TREE)
+        data = {r: ok_bytes(20 + j, ["lf", "noeol", "nonascii"][j % 3]) for j, r in enumerate(files)}
+        faults = {r: "none" for r in files}
+        if job["shape"] == "with-undecodable-file":
+            data["b one.cfg"], faults["b one.cfg"] = BAD_BYTES, "decode"
+        outdir = os.path.normpath(os.path.join("in", outrel))
+        if state in ("empty", "old"):
+            os.makedirs(os.path.join(root, outdir))
+        if state == "old":
+            old = os.path.normpath(os.path.join(outrel, "old result.cfg"))      # an input like any other file present at the start
+            files.append(old)
+            data[old], faults[old] = ok_bytes(31, "lf"), "none"
+        for r in files:
+            _write(os.path.join(root, "in", r), data[r])
+        _write(os.path.join(root, "beside.txt"), b"a bystander next to the input\n")
+        snap0 = snapshot(root)
+        texts, raised = run_entry(entry, job["feat"], os.path.join(root, "in"), os.path.join(root, outdir), repo)
+        snap1 = snapshot(root)
+        shutil.rmtree(root, ignore_errors=True)
+        events, info = _project_plain(files, data, faults, snap0, snap1, texts, raised, job["feat"], "in", outdir)
+        info["output_dir"], info["output_state"] = outdir, state
+        info["input_arg"], info["output_arg"] = "<sandbox>/in", "<sandbox>/" + outdir
+        results.append({"entry": entry, "events": events, "info": info})
+    return {"kind": "nest", "gid": job["gid"], "results": results}
